@@ -116,6 +116,11 @@ impl MatrixId {
                 "roomid" => '!',
                 _ => return Err(MatrixIdError::UnknownType.into()),
             };
+            // An identifier that is empty would be written back as a trailing slash, which is stripped
+            // when parsing again.
+            if id_without_sigil.is_empty() {
+                return Err(MatrixIdError::NoIdentifier.into());
+            }
             id = format!("{id}/{sigil}{id_without_sigil}");
         }
 
